@@ -2127,7 +2127,7 @@ end
 section
 namespace Fcgi.C07W
 open Fcgi Fcgi.Req Fcgi.Str Fcgi.Async Fcgi.Run Fcgi.Spec Fcgi.E2E Fcgi.C07E Fcgi.C07U Fcgi.C07B
-/-- the ECHO Responder — writes INTERLEAVED with reads (`read(1)`; `write_all` of that byte; …): one Stdout record per content byte, in order; restrictions: reads of 1 byte, Stdin noise that owes no reply (`hquiet`); no fuel hypothesis  (= `Fcgi.C07W.echo_responder_e2e`, `Props/C07Echo.lean`) -/
+/-- the ECHO Responder — writes INTERLEAVED with reads (`read(1)`; `write_all` of that byte; …): one Stdout record per content byte, in order; restrictions: reads of 1 byte, Stdin noise that owes no reply (`hquiet`); no fuel hypothesis; this clause states the LOG — that the reads return those bytes is Clauses 25–26  (= `Fcgi.C07W.echo_responder_e2e`, `Props/C07Echo.lean`) -/
 def C07Clause21 : Prop :=
   ∀ {p : Preamble} {recs : List Rec} {content : Bytes} {srecs : List Rec}
     {b mc : Nat} {st : ExitStatus} {more : List (List HOp × Bool)} {t : Transport} {fuel : Nat}
@@ -2152,7 +2152,7 @@ end
 section
 namespace Fcgi.C07W
 open Fcgi Fcgi.Req Fcgi.Str Fcgi.Async Fcgi.Run Fcgi.Spec Fcgi.E2E Fcgi.C07E Fcgi.C07U Fcgi.C07B
-/-- … and the concatenated Stdout payloads ARE the Stdin content  (= `Fcgi.C07W.payloads_echo`, `Props/C07Echo.lean`) -/
+/-- … and the concatenated Stdout payloads ARE the Stdin content (true by construction of the script; the reads are Clauses 25–26)  (= `Fcgi.C07W.payloads_echo`, `Props/C07Echo.lean`) -/
 def C07Clause22 : Prop :=
   ∀ (id : Nat) (content : Bytes),
     echoRecords id content = (content.map fun b => recordOf 6 id [b]).flatten ∧
